@@ -95,6 +95,9 @@ enum Op {
     CancelRunningPanic,
     CancelQueued,
     Pause,
+    /// the task blocks in place: tokio hands the worker's duties to a thread of the blocking pool, i.e. a
+    /// thread that ran closures before polls tasks from now on
+    BlockInPlace,
 }
 
 /// Drops the wrapper, recording the thread and the sequence numbers around the drop.
@@ -130,12 +133,13 @@ pub fn history(seed: u64, idx: u64) -> Case {
     let mb = rng.range(1, 4) as usize;
     let n_ops = rng.usize_below(6);
     let ops: Vec<Op> = (0..n_ops)
-        .map(|_| match rng.below(10) {
+        .map(|_| match rng.below(11) {
             0..=3 => Op::Complete,
             4..=5 => Op::Panic,
             6 => Op::CancelRunning,
             7 => Op::CancelRunningPanic,
             8 => Op::CancelQueued,
+            9 => Op::BlockInPlace,
             _ => Op::Pause,
         })
         .collect();
@@ -310,6 +314,12 @@ pub fn history(seed: u64, idx: u64) -> Case {
                     Op::Pause => {
                         tokio::time::sleep(Duration::from_micros(200)).await;
                     }
+                    Op::BlockInPlace => {
+                        tokio::task::block_in_place(|| std::thread::sleep(Duration::from_micros(300)));
+                        // let the tasks that follow be picked up by whichever thread is a worker now
+                        tokio::task::yield_now().await;
+                        log.note_async();
+                    }
                 }
             }
             if release_before_drop {
@@ -363,6 +373,11 @@ pub fn history(seed: u64, idx: u64) -> Case {
     let async_threads = log.async_threads.lock().unwrap().clone();
     let dropper = *dropper.lock().unwrap();
     let mut destructs = Vec::new();
+    // After a block_in_place the threads change roles (a thread of the blocking pool becomes a worker, the old
+    // worker may end up as a blocking thread): "has polled a task at some time" says nothing any more about
+    // what a thread is now. The probe made at the moment of the event (may this thread block?) still does.
+    let roles_change = ops.contains(&Op::BlockInPlace);
+    let async_threads: HashSet<ThreadId> = if roles_change { HashSet::new() } else { async_threads };
     for e in &events {
         match e {
             Ev::Ctor { thread, blocking_ok } => {
